@@ -222,7 +222,8 @@ def run(chk: Check):
     crashes = []
     with cf.ThreadPoolExecutor(max_workers=8) as ex:
         futs = {
-            ex.submit(run_batch, tag, backend, cap, [{"id": c["id"], "ops": c["ops"]} for c in cs], timeout): tag
+            ex.submit(run_batch, tag, backend, cap,
+                      [{"id": c["id"], "ops": c["ops"], "wf": gen.wellformed_flags(c["ops"])} for c in cs], timeout): tag
             for tag, backend, cap, cs in batches
         }
         for f in cf.as_completed(futs):
@@ -323,7 +324,8 @@ def replay(chk: Check, payload: dict) -> int:
         print("replay has no concrete history (see 'broken' in the file)")
         return 1
     WORK.mkdir(parents=True, exist_ok=True)
-    r = run_batch("replay", inp["backend"], inp.get("cap"), [{"id": 0, "ops": inp["ops"]}], 600)
+    r = run_batch("replay", inp["backend"], inp.get("cap"),
+                  [{"id": 0, "ops": inp["ops"], "wf": gen.wellformed_flags(inp["ops"])}], 600)
     shutil.rmtree(WORK / "replay", ignore_errors=True)
     if r["crashes"]:
         print("history:", json.dumps(inp["ops"]))
